@@ -112,7 +112,7 @@ Ltac match_other IH n i :=
 Theorem src_match_single_eq n : forall p i ret, src_match_single n p i ret = match_single fc n p i ret.
 Proof.
   induction n as [|n IH]; intros p i ret; [reflexivity|].
-  cbn [src_match_single]. rewrite truthy_dict.
+  cbn [src_match_single]. rewrite ?truthy_dict, ?truthy_dict'.
   (* the nine classes other than MetaVar / Instantiate: the primitives look at the head of the pattern and at the
      head-normal form of the instance *)
   destruct p.
